@@ -805,7 +805,7 @@ fn cmd_hashes(args: &[String]) -> i32 {
         let ctx = RunCtx { seed, tier: Tier::Quick, trace: false, program: None };
         let r = p.run_one(scenario, &ctx);
         let sigs: Vec<String> = r.violations.iter().map(|v| v.sig()).collect();
-        println!("{} {} {:016x} {} {:?} {:?}", i, scenario, r.event_hash, r.steps, sigs, r.harness_error);
+        println!("HASH {} {} {:016x} {} {:?} {:?}", i, scenario, r.event_hash, r.steps, sigs, r.harness_error);
     }
     0
 }
@@ -837,7 +837,8 @@ fn cmd_determinism(args: &[String]) -> i32 {
         let mut out = Vec::new();
         for h in hs {
             let o = h.wait_with_output().unwrap();
-            out.extend(String::from_utf8_lossy(&o.stdout).lines().map(|s| s.to_string()));
+            // (the code under test prints to stdout too, e.g. "Received signal ..")
+            out.extend(String::from_utf8_lossy(&o.stdout).lines().filter(|l| l.starts_with("HASH ")).map(|s| s.to_string()));
         }
         out
     };
